@@ -23,9 +23,15 @@ fn main() {
 	assert!(!repo.is_empty(), "build.rs: no pelite path dependency in Cargo.toml");
 	let repo = if Path::new(&repo).is_absolute() { Path::new(&repo).to_path_buf() } else { Path::new(&dir).join(&repo) };
 	let wide = repo.join("src/util/wide_str.rs");
-	assert!(wide.is_file(), "build.rs: {} not found", wide.display());
 	let out = Path::new(&env::var("OUT_DIR").unwrap()).join("pelite_paths.rs");
-	fs::write(&out, format!("#[path = {:?}]\npub mod wide_str;\n", wide.to_str().unwrap())).unwrap();
+	if wide.is_file() {
+		fs::write(&out, format!("#[path = {:?}]\npub mod wide_str;\n", wide.to_str().unwrap())).unwrap();
+	} else {
+		// the (unexported) module is gone from the tree: only src/bin/util.rs, which includes this file, stops building;
+		// every other harness binary is unaffected
+		fs::write(&out, "pub mod wide_str {}\n").unwrap();
+	}
+	println!("cargo:rerun-if-changed={}", wide.display());
 	println!("cargo:rerun-if-changed=Cargo.toml");
 	println!("cargo:rerun-if-changed=build.rs");
 }
